@@ -202,6 +202,9 @@ func c39() {
 		}
 		r.Eval(1)
 	}
+	// Concurrent creation (managers and prompters create identifiers at the same time).
+	c39interleavings(r, prefixes)
+	c39hammer(r, prefixes)
 	crand.Reader = original
 
 	c39names(r)
@@ -211,7 +214,7 @@ func c39() {
 		floor = 1 << 30
 	}
 	r.Assume("crypto/rand.Reader is replaced inside the monitor process only; identifier.New draws exactly 32 bytes per identifier")
-	r.Finish("identifier.New driven with chosen 32-byte values through a scripted crypto/rand.Reader: structured families (all-zero, all-ff, 1..31 leading zero bytes x 6 patterns, 256 single-bit values, Base62 digit-count boundaries 62^k and 62^k+-1, values whose 43-digit encoding starts with a run of one digit) and seeded random draws; format, IsValid, Truncated-prefix and exact collision freedom (map over all identifiers of the run) checked; session names: generated strings judged by the documented rule; distinct = (family, number of significant Base62 digits) for identifiers and (verdict, reason) classes for names", floor)
+	r.Finish("identifier.New driven with chosen 32-byte values through a scripted crypto/rand.Reader: structured families (all-zero, all-ff, 1..31 leading zero bytes x 6 patterns, 256 single-bit values, Base62 digit-count boundaries 62^k and 62^k+-1, values whose 43-digit encoding starts with a run of one digit) and seeded random draws; format, IsValid, Truncated-prefix and exact collision freedom (map over all identifiers of the run) checked; session names: generated strings judged by the documented rule; concurrent creation: deterministic interleavings (one call held inside the scripted random read while one or two other calls complete, every ordered pair of prefixes) and 8 goroutines creating identifiers at once, each result judged by value (own prefix, documented form, IsValid, all distinct); distinct = (family, number of significant Base62 digits) for identifiers and (verdict, reason) classes for names", floor)
 }
 
 func famOf(i int, vals [][]byte, families map[string]int) string {
